@@ -168,6 +168,11 @@ class WebSession(object):
                 _logger.debug('Got redirect is repeat.')
 
                 request = self._original_request.copy()
+
+                # These fields belong to the URL of the original request
+                for name in ('Host', 'Authorization', 'Cookie'):
+                    request.fields.pop(name, None)
+
                 request.url = url
             else:
                 request = self._request_factory(url)
